@@ -405,6 +405,15 @@ func vsGenHist(r *rand.Rand) vsHist {
 			lastCfg = c
 			lastPeers = c.Peers
 			h.Evs = append(h.Evs, vsEv{Op: "cfg", Cfg: c})
+			// the controller side releases the addresses that have no pool any more (most of the time, some right away)
+			for k := 0; k < 4; k++ {
+				if last[k] != nil && !last[k].Invalid && len(last[k].IPs) > 0 && !vsHasPool(c, last[k].IPs) && r.Intn(3) != 0 {
+					d := *last[k]
+					d.IPs = []string{}
+					last[k] = &d
+					h.Evs = append(h.Evs, vsEv{Op: "svc", Name: k, Svc: &d})
+				}
+			}
 		case x < 88:
 			idx := r.Intn(3)
 			if r.Intn(2) == 0 || deleted[idx] {
@@ -732,6 +741,7 @@ type vsWorld struct {
 	nodes   map[int]*vsNode
 	cfg     *vsCfg // last accepted by the speaker
 	lastCfg *vsCfg // last delivered (what the API server holds); != cfg while a refused configuration is pending
+	pending *vsCfg // refused with SyncStateError: the config reconciler forgot its memo and serves the request again
 	deleted map[int]*vsNode // Node objects deleted from the cluster (the speaker never hears of it)
 	stale   bool   // a node's first event happened with services present and no re-sync since
 	staleBy int
@@ -831,8 +841,13 @@ func vsFreshWith(h vsHist, k *vsCtl, w *vsWorld, extra map[int]*vsNode) vsObs {
 	for _, i := range idx {
 		f.c.SetNode(lg, vsBuildNode(all[i]))
 	}
-	if w.cfg != nil {
-		f.c.SetConfig(lg, vsBuildCfg(w.cfg))
+	// the cluster's configuration; while a refused one waits to be served again, the one the speaker still runs
+	target := w.lastCfg
+	if w.pending != nil || target == nil {
+		target = w.cfg
+	}
+	if target != nil {
+		f.c.SetConfig(lg, vsBuildCfg(target))
 	}
 	vsResync(f, &vsWorld{K: w.K}, nil)
 	return vsObserve(f)
@@ -978,11 +993,13 @@ func vsRunHistory(out *vOut, id int, kind string, h vsHist, r *rand.Rand) {
 			if k.c.config == built {
 				w.cfg = e.Cfg
 			}
+			w.pending = nil
 			switch st {
 			case controllers.SyncStateReprocessAll:
 				vsResync(k, w, r)
 				out.Stat("ev_cfg_accepted", 1)
 			case controllers.SyncStateError:
+				w.pending = e.Cfg
 				out.Stat("ev_cfg_refused", 1)
 				if !orphan && !failed {
 					failed = true
@@ -1037,6 +1054,25 @@ func vsRunHistory(out *vOut, id int, kind string, h vsHist, r *rand.Rand) {
 			out.Stat("ev_resync", 1)
 		}
 		o := emit(e)
+		// the work queue of the config reconciler: a request answered with SyncStateError is served again after later events
+		if w.pending != nil && e.Op != "cfg" {
+			built := vsBuildCfg(w.pending)
+			st := k.c.SetConfig(lg, built)
+			retried := vsEv{Op: "cfg", Cfg: w.pending}
+			if k.c.config == built {
+				w.cfg = w.pending
+			}
+			switch st {
+			case controllers.SyncStateReprocessAll:
+				w.pending = nil
+				vsResync(k, w, r)
+				out.Stat("ev_cfg_accepted_on_retry", 1)
+			case controllers.SyncStateError:
+			default:
+				w.pending = nil
+			}
+			o = emit(retried)
+		}
 		// ---- oracle 1: nothing is announced for a Service that is gone / not a
 		// LoadBalancer / has no or an invalid address / no endpoint that can serve
 		bc := k.c.protocolHandlers[config.BGP].(*bgpController)
@@ -1073,7 +1109,7 @@ func vsRunHistory(out *vOut, id int, kind string, h vsHist, r *rand.Rand) {
 				break
 			}
 		}
-		if w.lastCfg != w.cfg {
+		if w.pending != nil {
 			// a refused configuration is pending (the reconciler retries it): the speaker is, by design, still on the
 			// previous configuration; `want` is the fresh speaker on that one (hypothesis in_sync of the theorem)
 			out.Stat("steps_with_pending_refused_configuration", 1)
@@ -1293,9 +1329,11 @@ func vsRunHistory(out *vOut, id int, kind string, h vsHist, r *rand.Rand) {
 // No first node event after services (F25), no interface lists (F9), one address per
 // service (F8): so that the multi-speaker oracle below has no recorded exception.
 
-func vsElectCfg(r *rand.Rand) *vsCfg {
+func vsElectCfg(r *rand.Rand) *vsCfg { return vsElectCfgN(r, 2) }
+
+func vsElectCfgN(r *rand.Rand, npools int) *vsCfg {
 	c := &vsCfg{Peers: []vbPeer{{Name: 0, Sels: [][][2]int{}}}}
-	for p := 0; p < 2; p++ {
+	for p := 0; p < npools; p++ {
 		pl := vsPool{CIDRs: []string{"10.20.30.0/24", "fc00:30::/64"}}
 		if p == 1 {
 			pl.CIDRs = []string{"10.20.31.0/24", "fc00:31::/64"}
@@ -1427,8 +1465,24 @@ func vsGenElectHist(r *rand.Rand) vsHist {
 				}
 				h.Evs = append(h.Evs, vsEv{Op: "nodedel", Node: &vsNode{Idx: idx}})
 			}
-		default:
+		case x < 97:
 			h.Evs = append(h.Evs, vsEv{Op: "cfg", Cfg: vsElectCfg(r)})
+		default:
+			// ONE configuration change deletes the second pool (its Service s2 may be announced somewhere: that speaker
+			// refuses) and re-deals the layer-2 node sets; then the controller clears s2's address; later the pool is back
+			h.Evs = append(h.Evs, vsEv{Op: "cfg", Cfg: vsElectCfgN(r, 1)})
+			if r.Intn(3) != 0 {
+				flip(r.Intn(3))
+			}
+			c := *last[2]
+			c.IPs = []string{}
+			last[2] = &c
+			h.Evs = append(h.Evs, vsEv{Op: "svc", Name: 2, Svc: &c})
+			if r.Intn(2) == 0 {
+				h.Evs = append(h.Evs, vsEv{Op: "cfg", Cfg: vsElectCfg(r)})
+				last[2] = vsElectSvc(r, 2)
+				h.Evs = append(h.Evs, vsEv{Op: "svc", Name: 2, Svc: last[2]})
+			}
 		}
 	}
 	flip(1 + r.Intn(2)) // ends right after the flip of another node
@@ -1508,6 +1562,7 @@ func vsRunMulti(out *vOut, kind string, h vsHist, r *rand.Rand) {
 	var done []vsEv
 	failed := false
 	delNode := false
+	var pend [3]*vsCfg // per speaker: the configuration it refused with SyncStateError (requeued)
 	resync := func(k *vsCtl) {
 		names := []int{}
 		for n := range w.K {
@@ -1557,16 +1612,50 @@ func vsRunMulti(out *vOut, kind string, h vsHist, r *rand.Rand) {
 					resync(k)
 				}
 			case "cfg":
-				if k.c.SetConfig(lg, vsBuildCfg(e.Cfg)) == controllers.SyncStateReprocessAll {
+				pend[i] = nil
+				switch k.c.SetConfig(lg, vsBuildCfg(e.Cfg)) {
+				case controllers.SyncStateReprocessAll:
 					resync(k)
+				case controllers.SyncStateError:
+					// refused: the config reconciler forgets its memo and the request is served again later
+					pend[i] = e.Cfg
+					out.Stat("multi_cfg_refused", 1)
 				}
 			default: // speaker-list change (ForceSync) or any other full re-sync
 				resync(k)
 			}
 		}
+		// the requeued configuration requests are served again after the event
+		if e.Op != "cfg" {
+			for i, k := range ks {
+				if pend[i] != nil && w.deleted[i] == nil {
+					switch k.c.SetConfig(lg, vsBuildCfg(pend[i])) {
+					case controllers.SyncStateReprocessAll:
+						pend[i] = nil
+						resync(k)
+						out.Stat("multi_cfg_accepted_on_retry", 1)
+					case controllers.SyncStateError:
+					default:
+						pend[i] = nil
+					}
+				}
+			}
+		}
 		done = append(done, e)
 		out.Stat("multi_events", 1)
 		if w.cfg == nil {
+			continue
+		}
+		waiting := false
+		for i := range ks {
+			if pend[i] != nil && w.deleted[i] == nil {
+				waiting = true
+			}
+		}
+		if waiting {
+			// some speaker refused the last configuration and will be served again: the speakers do not share one
+			// view until the blocking Service is released
+			out.Stat("multi_steps_with_pending_configuration", 1)
 			continue
 		}
 		// ---- C04 at quiescence, per ADDRESS: every address answered by some node is held by a Service of
@@ -1735,6 +1824,29 @@ func TestVerifSpkMulti(t *testing.T) {
 	defer out.Close()
 	r := vRand()
 	n := vN(30)
+	// a pool is deleted while its Service is announced and the other pool's advertisement moves to another node:
+	// the announcing speaker refuses, the controller then clears the address, the requeued configuration is accepted
+	{
+		T := true
+		ipA, ipB := vsAddrWonBy(0, 1), "10.20.31.1" // s1's address is won by node 0 while both nodes are eligible
+		if vsPoolIdx(&vsCfg{Pools: []vsPool{{CIDRs: []string{"10.20.30.0/24", "fc00:30::/64"}}}}, []string{ipA}) < 0 {
+			ipA = "10.20.30.1"
+		}
+		ep := [][]vbEP{{{Ready: &T, Node: 0, Addrs: []int{1}}, {Ready: &T, Node: 1, Addrs: []int{2}}}}
+		p1 := func(nodes ...int) vsPool {
+			return vsPool{CIDRs: []string{"10.20.30.0/24", "fc00:30::/64"}, L2: []vsL2Adv{{Nodes: nodes, Ifs: []int{}, All: true}}}
+		}
+		p2 := vsPool{CIDRs: []string{"10.20.31.0/24"}, L2: []vsL2Adv{{Nodes: []int{0}, Ifs: []int{}, All: true}}}
+		vsRunMulti(out, "corpus-pool-deleted-while-announced", vsHist{Speakers: []int{0, 1}, Evs: []vsEv{
+			{Op: "node", Node: &vsNode{Idx: 0}}, {Op: "node", Node: &vsNode{Idx: 1}},
+			{Op: "cfg", Cfg: &vsCfg{Pools: []vsPool{p1(0), p2}}},
+			{Op: "svc", Name: 1, Svc: &vsSvc{LB: true, IPs: []string{ipA}, Eps: ep}},
+			{Op: "svc", Name: 2, Svc: &vsSvc{LB: true, IPs: []string{ipB}, Eps: ep}},
+			{Op: "cfg", Cfg: &vsCfg{Pools: []vsPool{p1(1)}}}, // p2 deleted, p1's advertisement moves from node 0 to node 1
+			{Op: "svc", Name: 2, Svc: &vsSvc{LB: true, IPs: []string{}, Eps: ep}}, // the controller clears the address
+			{Op: "svc", Name: 1, Svc: &vsSvc{LB: true, IPs: []string{ipA}, Eps: ep}},
+		}}, r)
+	}
 	gone := vsOwnerFlipHist(1, false)
 	gone.Disabled, gone.Speakers = true, nil
 	gone.Evs = append(gone.Evs[:4:4], vsEv{Op: "nodedel", Node: &vsNode{Idx: 1}}, vsEv{Op: "resync"}, gone.Evs[3])
@@ -1885,6 +1997,18 @@ func TestVerifSpk(t *testing.T) {
 	ownerGone.Evs = append(ownerGone.Evs[:4:4], vsEv{Op: "nodedel", Node: &vsNode{Idx: 1}}, vsEv{Op: "resync"}, ownerGone.Evs[3])
 	id++
 	vsRunHistory(out, id, "corpus-deleted-node", ownerGone, r)
+	// a pool is deleted while its Service is announced: refused; the controller clears the address; the requeued
+	// configuration must then be accepted without any further configuration event
+	poolGone := vsHist{Speakers: []int{0}, Evs: []vsEv{
+		{Op: "node", Node: &vsNode{Idx: 0}},
+		{Op: "cfg", Cfg: &vsCfg{Pools: []vsPool{{CIDRs: []string{"10.20.30.0/24"}, L2: all, BGP: bgpAdv}, {CIDRs: []string{"10.20.31.0/24"}, L2: all}}, Peers: []vbPeer{{Name: 0, Sels: [][][2]int{}}}}},
+		{Op: "svc", Name: 1, Svc: svcIPs("10.20.30.1")}, {Op: "svc", Name: 2, Svc: svcIPs("10.20.31.1")},
+		{Op: "cfg", Cfg: &vsCfg{Pools: []vsPool{{CIDRs: []string{"10.20.30.0/24"}, BGP: bgpAdv}}, Peers: []vbPeer{{Name: 0, Sels: [][][2]int{}}, {Name: 1, Sels: [][][2]int{}}}}},
+		{Op: "svc", Name: 2, Svc: &vsSvc{LB: true, IPs: []string{}, Eps: eps}},
+		{Op: "svc", Name: 1, Svc: svcIPs("10.20.30.1")},
+	}}
+	id++
+	vsRunHistory(out, id, "corpus-pool-deleted-while-announced", poolGone, r)
 	// a configuration that orphans an announced address is refused, then the address changes and it is accepted
 	refuse := vsHist{Speakers: []int{0}, Evs: []vsEv{
 		{Op: "node", Node: &vsNode{Idx: 0}},
